@@ -642,7 +642,9 @@ def cascade_and_labels(check, prog, canon, g0, d, loc):
             for k, v in co[1]:
                 if k == ('const', 'z'):
                     zs.append(v)
-    check.floor('z-indexed arrays built by trans_func', len(zs), 1)
+    check.need('z-indexed arrays built by trans_func', len(zs), 1, 'D-z-labels',
+               'trans_func z coordinate (built)',
+               'plain distances are turned into a z-indexed array', loc)
     conv = ('holopy.core.utils.ensure_array', 'numpy.array', 'numpy.asarray',
             'numpy.atleast_1d')
     for v in zs:
